@@ -87,6 +87,19 @@ var WorkSeeds = []string{
 }
 
 // ModOps is the operation alphabet for go.mod (all arguments valid).
+// UncleanedSetterOps are the bulk setters called without a Cleanup before them (C15 only: the C08 property
+// stipulates the Cleanup).
+func UncleanedSetterOps(work bool) []Op {
+	if work {
+		return []Op{{Kind: "SetUseUncleaned", A: []string{"./a,./c"}}, {Kind: "SetUseUncleaned", A: []string{""}}}
+	}
+	var out []Op
+	for _, k := range []string{"SetRequireUncleaned", "SetRequireSeparateIndirectUncleaned"} {
+		out = append(out, Op{Kind: k, A: []string{"a.com/x@v1.1.0"}}, Op{Kind: k, A: []string{"a.com/x@v1.0.0!,b.com/y@v1.1.0"}}, Op{Kind: k, A: []string{""}})
+	}
+	return out
+}
+
 func ModOps(full bool) []Op {
 	var ops []Op
 	add := func(kind string, a ...string) { ops = append(ops, Op{kind, a}) }
